@@ -56,7 +56,9 @@ theorem judge_none_iff (h : History) (f : Fid) (off : Nat) (r : Bytes) :
   unfold judge
   split
   · simp [*]
-  · split <;> simp [*]
+  · split
+    · simp [*]
+    · split <;> simp [*]
 
 /-! ### the main theorems -/
 
@@ -245,6 +247,37 @@ theorem store_then_lookup_hits (c : Cache) (hc : WellFormed c) (f : Fid) (d : By
 
 example : WellFormed (newCache 64 16) := by
   refine ⟨by decide, ?_, ?_, ?_⟩ <;> decide
+
+/-! ### the data file behind a volume -/
+
+/-- **WriteNeedle on the byte-level volume refines the model's write**: appending the data (and padding) at
+    `fileSize` and pointing the key at it leaves every other entry reading the same bytes, the new entry reads
+    exactly the written bytes, and all entries stay inside the file — for every well-formed volume -/
+theorem bvol_write_refines (v : BVol) (hw : v.Wf) (i key : Nat) (d : Bytes) :
+    (v.write key d).abs i = (v.abs i).write key d ∧ (v.write key d).Wf := by
+  constructor
+  · simp only [BVol.abs, BVol.write, Vol.write, Vol.mk.injEq, true_and]
+    refine ⟨?_, ?_⟩
+    · have := padded_ge d.length
+      simp only [List.length_append, List.length_replicate]; omega
+    · simp only [List.map_cons, List.filter_map, List.cons.injEq, Entry.mk.injEq, true_and]
+      refine ⟨?_, ?_⟩
+      · simp [BVol.read]
+      · apply List.map_congr_left
+        intro e he
+        have hin := hw e (List.mem_filter.mp he).1
+        simp only [Entry.mk.injEq, true_and]
+        exact read_append v _ e hin
+  · intro e he
+    simp only [BVol.write, List.mem_cons, List.mem_filter] at he
+    simp only [BVol.write, List.length_append, List.length_replicate]
+    rcases he with rfl | ⟨he, _⟩
+    · simp only; omega
+    · have := hw e he; omega
+
+/-- a freshly reset volume is well-formed, and reads back what is written -/
+example : (BVol.mk [] []).Wf ∧ ((BVol.mk [] []).write 17 [1, 2, 3]).abs 0 = ⟨0, 8, [⟨17, 0, [1, 2, 3]⟩]⟩ :=
+  ⟨fun _ h => (by cases h), by decide⟩
 
 /-! ### bridges to the regenerated source facts -/
 
